@@ -242,6 +242,12 @@ def run_case(kind, params, ctx):
                ("non-hex-letter", t[:5] + "g" + t[6:]), ("0x-prefix-66", "0x" + t), ("hash-prefix", "#" + t[1:]), ("h-suffix", t[:-1] + "h"),
                ("too-short", t[:62]), ("too-long", t + "00"), ("zero", "0" * 64), ("n", f"{N:064x}"), ("empty", "")]
         for cls, txt in bad:
+            try:
+                if secp.sec1_decode(bytes.fromhex(txt)) is not None:
+                    ctx.count("cli.privkey_text_is_a_valid_public_key")     # e.g. 33 bytes starting 02/03 with x on the curve: `bits pubkey` rightly accepts it
+                    continue
+            except ValueError:
+                pass
             for arg in ("stdin", "with-newline"):
                 rr = clihelp.run(["pubkey", "-X", "-1x", "-0x"], (txt + ("\n" if arg == "with-newline" else "")).encode())
                 ctx.count("cli.privkey_text_bad")
